@@ -1025,7 +1025,7 @@ static void phase_oom(int U) {
 
 int main(int argc, char **argv) {
     vf_init(argc, argv, "h_tree");
-    vf_errno_entry = 1; vf_op_budget_ms = 10000;   /* stale errno on entry of every logged operation; a call that never returns is hang:operation */
+    vf_errno_entry = 1; vf_op_budget_ms = VF.thorough ? 120000 : 10000;   /* stale errno on entry of every logged operation; a call that never returns is hang:operation */
     vf_errno_noise_every = 5;   /* every fifth case: successful allocations leave errno = ENOMEM behind (glibc does when brk fails) */
     P = atoi(VF.prop + 1);
     if (P != 1 && P != 2 && P != 3 && P != 4 && P != 11 && P != 15) { fprintf(stderr, "h_tree: unsupported property %s\n", VF.prop); return 2; }
